@@ -5,6 +5,7 @@
     wake-up and its resumption), purges, evictions, restarts, store faults. *)
 From Coq Require Import List Arith Bool ZArith Lia.
 From Pike Require Import Model.Sys Proofs.ListAux Proofs.SysInv Proofs.SysStep Proofs.SysTheorems Corr.SysCorr Corr.WakeCorr.
+From Pike Require Proofs.Lockset Proofs.Atomic.
 Import ListNotations.
 
 (** In every reachable state, for every entry of the current process life: at
@@ -72,3 +73,13 @@ Example C01_burst :
              (run (init 1000000 0 false false) ls)
   = Some ([TDone LFetching (Some 1) 0; TDone LHit (Some 1) 0; TDone LHit (Some 1) 0; TDone LHit (Some 1) 0], 1).
 Proof. vm_compute. reflexivity. Qed.
+
+(** ** atomicity of the dispatcher's lookup-or-create section (the [PLookup]
+    step of Model/Sys.v is one step): discharged per run on the skeleton of
+    GetHTTPCache regenerated from the source (PerRun/C01_inst.v) through this
+    theorem — on every path the shard lock is taken at most once and never
+    released before the function ends *)
+Theorem C01_one_section_sound : forall m l t r,
+  Atomic.one_section m l = true -> Atomic.path_list l t r -> Atomic.count (Atomic.is_acq m) t <= 1 /\ Atomic.count (Atomic.is_rel m) t = 0.
+Proof. exact Atomic.one_section_sound. Qed.
+Print Assumptions C01_one_section_sound.
